@@ -28,21 +28,49 @@ CONSTANTS
   Protos <- %(protos)s
   MaxItems = %(items)d
   MaxXff = %(xff)d
+  Pres <- %(pres)s
+  Sufs <- %(sufs)s
+  Fills <- %(fills)s
 %(inv)s
 CHECK_DEADLOCK FALSE
 """
 INV = ("INVARIANTS TypeOK GateSafe DeniedUntouched ForwardedOnce OutcomeSound NoSpuriousDeny SomeOutcome "
-       "NeverWidens AllowOnlyInside DenyRejectsInside UnknownSchemeRejects")
+       "NeverWidens AllowOnlyInside DenyRejectsInside UnknownSchemeRejects ChainPositionFree")
 ACTIONS = ["ChooseRules", "ChooseReq", "Lookup", "AccessPass", "AccessDeny", "AuthPass", "AuthDeny", "Forward"]
 
 
-def cfg(spec, items, xff, auth=True, protos="MCBoth", inv=False):
-    return CFG % dict(spec=spec, items=items, xff=xff, protos=protos,
+def cfg(spec, items, xff, auth=True, protos="MCBoth", inv=False, chain=None):
+    pres, sufs, fills = chain or ("MCPresNone", "MCSufsNone", "MCFillsOne")
+    return CFG % dict(spec=spec, items=items, xff=xff, protos=protos, pres=pres, sufs=sufs, fills=fills,
                       schemes="MCSchemes" if auth else "MCNoAuthSchemes",
                       creds="MCCreds" if auth else "MCNoAuthCreds", inv=INV if inv else "")
 
 
+HIST_CFG = """SPECIFICATION %(spec)s
+CONSTANTS
+  Creds <- %(creds)s
+  Versions <- MCVersions
+  Valid <- MCValid
+  SameConcat <- MCSameConcat
+  FirstVersion = "v1"
+  MaxAttempts = %(attempts)d
+  MaxReloads = %(reloads)d
+  Memo = "%(memo)s"
+%(inv)s
+CHECK_DEADLOCK FALSE
+"""
+
+
+def hist_cfg(spec, creds, attempts, reloads, memo="none", inv=False):
+    return HIST_CFG % dict(spec=spec, creds=creds, attempts=attempts, reloads=reloads, memo=memo,
+                           inv="INVARIANTS HistoryIndependent UpstreamOnlyWhenAccepted" if inv else "")
+
+
+CHAIN_Q = ("MCPresLong", "MCSufsShort", "MCFillsSome")
+CHAIN_T = ("MCPresLong", "MCSufsLong", "MCFillsAll")
+
 SUBS = {
+    "authhist": ("proxy", ["proxy/c12_hist_test.go"], "^TestVerifC12AuthHist$", False),
     "route": ("route", ["route/c12_test.go"], "^TestVerifC12Route$", False),
     "http": ("proxy", ["proxy/c12_test.go"], "^TestVerifC12HTTP$", False),
     "tcp": ("proxy/tcp", ["proxy/tcp/c12_test.go"], "^TestVerifC12TCP$", False),
@@ -61,8 +89,8 @@ def run_sub(ctx, sub, cases, what, timeout=600):
     return r
 
 
-def mc(ctx, what, items, xff, auth, timeout, coverage=False):
-    r = ctx.tlc("Access_MC", cfg_text=cfg("Spec", items, xff, auth=auth, inv=True), workers=8,
+def mc(ctx, what, items, xff, auth, timeout, coverage=False, chain=None, protos="MCBoth"):
+    r = ctx.tlc("Access_MC", cfg_text=cfg("Spec", items, xff, auth=auth, inv=True, chain=chain, protos=protos), workers=8,
                 timeout=timeout, coverage=coverage)
     ctx.log("MC %s (<=%d items, XFF<=%d, auth=%s): %d generated, %d distinct, %.0fs" % (what, items, xff, auth, r.generated, r.distinct, r.wall))
     if not ctx.need_tlc_ok(r, "Access MC " + what):
@@ -76,8 +104,8 @@ def mc(ctx, what, items, xff, auth, timeout, coverage=False):
     return True
 
 
-def gen(ctx, what, sink, items, xff, auth, protos="MCBoth", timeout=600):
-    r = ctx.tlc("Access_MC", cfg_text=cfg("GenSpec", items, xff, auth=auth, protos=protos), workers=8,
+def gen(ctx, what, sink, items, xff, auth, protos="MCBoth", timeout=600, chain=None):
+    r = ctx.tlc("Access_MC", cfg_text=cfg("GenSpec", items, xff, auth=auth, protos=protos, chain=chain), workers=8,
                 json_sink=sink, timeout=timeout)
     ctx.log("Gen %s (<=%d items, XFF<=%d, auth=%s): %d transitions, %.0fs" % (what, items, xff, auth, r.generated, r.wall))
     if not ctx.need_tlc_ok(r, "Access Gen " + what):
@@ -92,7 +120,7 @@ def clean_rules(line):
     return ok(c["allow"]) and ok(c["deny"]) and not (c["allow"] and c["deny"])
 
 
-def sample(ctx, src, dst, keep, proto=None, always=None):
+def sample(ctx, src, dst, keep, proto=None, always=None, pred=None):
     """Seeded slice of a case file, selected by content (TLC's output order is not deterministic):
     every line for which always(line) holds plus a pseudo-random share `keep` of the others."""
     import hashlib
@@ -101,6 +129,8 @@ def sample(ctx, src, dst, keep, proto=None, always=None):
     with open(src) as fh, open(dst, "a") as out:
         for line in fh:
             if proto and ('"proto":"%s"' % proto) not in line:
+                continue
+            if pred and not pred(line):
                 continue
             take = keep >= 1.0
             if not take:
@@ -115,9 +145,10 @@ def sample(ctx, src, dst, keep, proto=None, always=None):
 def run(ctx):
     ctx.level = "model_checking"
     ctx.assumptions += [
-        "universe: rule items {A=v4 /8, B=v4 host, C=v6 /10, ip:<v4>/33, ip:notanip, item without type, unknown type}, lists of <=%d items as allow / deny / both; peers and X-Forwarded-For elements {in A, in B, v4 outside, in C, v6 outside, zone-scoped v6 in C}, chains of <=2; schemes {none, basic (configured), unconfigured name}; credentials {none, good, bad, malformed header}" % ctx.pick(2, 3),
+        "universe: rule items {A=v4 /8, B=v4 host, C=v6 /10, ip:<v4>/33, ip:notanip, item without type, unknown type}, lists of <=%d items as allow / deny / both; peers and X-Forwarded-For elements {in A, in B, v4 outside, in C, v6 outside, zone-scoped v6 in C}, chains of <=2 judged elements surrounded by {0,1,2,15,16,17,40,200} filler hops in front and {0,1,20} behind, on one or several header lines; schemes {none, basic (configured), unconfigured name}; credentials {none, good, bad, malformed header}" % ctx.pick(2, 3),
         "for an undocumented configuration (unparsable item, allow and deny together) and for zone-scoped addresses the specification fixes only the upper bound (never admit what the well-formed part / the address part would not admit); denying more is permitted there",
         "the unparsable items name blocks containing no address of the universe, so a more lenient parser would be judged the same",
+        "authentication histories: <=3 login attempts over {good, changed password, wrong password, shifted user/password split, empty user, empty password, other user, crossed, none, malformed} with <=1 htpasswd reload (3 contents) on a fresh scheme instance per history; the verdict must follow from the attempt and the content in force",
         "when access and authentication both fail, 403 and 401 are both accepted (the statement fixes no order)",
         "end to end runs use loopback sources (127.0.0.0/8, ::1 and, when the host has one, a link-local address for the zone-scoped peer); the IPv6-outside peer exists only at decision level and as an X-Forwarded-For element",
     ]
@@ -132,8 +163,24 @@ def run(ctx):
     else:
         if not mc(ctx, "gate-auth", 1, 1, True, 200):
             return
-        if not mc(ctx, "gate-lists", 2, 2, False, 200):
+        if not mc(ctx, "gate-lists", 2, 1, False, 200):
             return
+    # long X-Forwarded-For chains: fillers around the judged elements, lengths at boundary values
+    if not mc(ctx, "chains", ctx.pick(1, 2), 1, False, ctx.pick(200, 900), chain=ctx.pick(CHAIN_Q, CHAIN_T), protos="MCHttp"):
+        return
+    # authentication over histories: the design and the pair-keyed memo hold, the concatenation-keyed memo must not
+    for memo in ctx.pick(("none",), ("none", "pair")):
+        h = ctx.tlc("AccessHist_MC", cfg_text=hist_cfg("Spec", "MCCredsFull", 3, ctx.pick(1, 2), memo=memo, inv=True), workers=4, timeout=600)
+        ctx.log("MC auth histories (memo=%s): %d generated, %d distinct, %.0fs" % (memo, h.generated, h.distinct, h.wall))
+        if not ctx.need_tlc_ok(h, "AccessHist MC memo=" + memo):
+            return
+        ctx.cover("mc-authhist-" + memo, states=h.distinct, transitions=h.generated)
+    bad = ctx.tlc("AccessHist_MC", cfg_text=hist_cfg("Spec", "MCCredsFull", 3, 1, memo="concat", inv=True), workers=4, timeout=300)
+    if bad.error or bad.timed_out or bad.violated != "HistoryIndependent":
+        ctx.inconclusive("the design that remembers verified credentials by user+password run together is NOT rejected by the model (violated=%s error=%s)"
+                         % (bad.violated, bad.error))
+        return
+    ctx.log("MC auth histories, broken design (memo keyed by the concatenation): violates HistoryIndependent after %d states, as required" % bad.generated)
 
     # 2. cases: (a) every configuration x peer x chain without authentication,
     #           (b) the product with schemes and credentials on the smaller configuration universe
@@ -144,10 +191,25 @@ def run(ctx):
     if not gen(ctx, "gate", gate, ctx.pick(1, 2), 1, True, protos="MCHttp"):
         return
 
-    # 3. replay: decisions (every case)
+    chainc = os.path.join(ctx.tmp, "c12.chain.cases")
+    if not gen(ctx, "chains", chainc, ctx.pick(1, 2), 1, False, protos="MCHttp", chain=ctx.pick(CHAIN_Q, CHAIN_T)):
+        return
+    histc = os.path.join(ctx.tmp, "c12.hist.cases")
+    hg = ctx.tlc("AccessHist_MC", cfg_text=hist_cfg("GenSpec", "MCCredsFull", 3, 0), workers=4, json_sink=histc, timeout=600)
+    if not ctx.need_tlc_ok(hg, "AccessHist Gen"):
+        return
+    histr = os.path.join(ctx.tmp, "c12.histreload.cases")
+    hr = ctx.tlc("AccessHist_MC", cfg_text=hist_cfg("GenSpec", ctx.pick("MCCredsSmall", "MCCredsFull"), 3, 1), workers=4, json_sink=histr, timeout=600)
+    if not ctx.need_tlc_ok(hr, "AccessHist Gen (reload)"):
+        return
+    ctx.log("Gen auth histories: %d without reload, %d transitions with one reload" % (hg.generated - 1, hr.generated - 1))
+    ctx.cover("gen-authhist", transitions=hg.generated + hr.generated)
+
+    # 3. replay: decisions (every case; of the long chains a seeded share in the thorough tier)
     allc = os.path.join(ctx.tmp, "c12.all.cases")
     sample(ctx, acc, allc, 1.0)
     sample(ctx, gate, allc, 1.0)
+    sample(ctx, chainc, allc, ctx.pick(1.0, 0.10), always=clean_rules)
     r = run_sub(ctx, "route", allc, "C12 decisions")
     if r is None:
         return
@@ -163,6 +225,7 @@ def run(ctx):
     httpc = os.path.join(ctx.tmp, "c12.http.cases")
     n1 = sample(ctx, gate, httpc, ctx.pick(0.5, 1.0), proto="http")
     n2 = sample(ctx, acc, httpc, ctx.pick(0.08, 0.06), proto="http", always=clean_rules)
+    n2 += sample(ctx, chainc, httpc, ctx.pick(0.10, 0.03), proto="http")
     r = run_sub(ctx, "http", httpc, "C12 end to end HTTP", timeout=ctx.pick(300, 800))
     if r is None:
         return
@@ -189,6 +252,22 @@ def run(ctx):
     ctx.cover("tcp", traces_validated_against_impl=s["ran"], evaluations=s["connections"], distinct_nontrivial=s["distinct_nontrivial"],
               samples=s.get("samples") or [])
     ctx.take_failures(r, "tcp")
+
+    # 6. replay: authentication histories end to end (every history without reload; with a reload: those of full length)
+    hall = os.path.join(ctx.tmp, "c12.hist.all")
+    sample(ctx, histc, hall, 1.0)
+    nrel = sample(ctx, histr, hall, ctx.pick(0.35, 0.2), always=None, pred=lambda l: '"reload"' in l and l.count('"attempt"') == 3)
+    r = run_sub(ctx, "authhist", hall, "C12 authentication histories", timeout=ctx.pick(300, 800))
+    if r is None:
+        return
+    s = r.summary
+    ctx.log("auth histories end to end: %d histories (%d with a reload), %d attempts, %d accepted / %d rejected, %d reloads observed, %d failed, %.0fs"
+            % (s["ran"], nrel, s["attempts"], s["accepted"], s["rejected"], s["reloads"], s["fails"], r.wall))
+    if s["ran"] == 0 or s["accepted"] == 0 or s["rejected"] == 0 or s["reloads"] == 0:
+        ctx.inconclusive("authentication history run is vacuous: %s" % json.dumps(s)[:400])
+    ctx.cover("authhist", traces_validated_against_impl=s["ran"], evaluations=s["attempts"], distinct_nontrivial=s["distinct_nontrivial"],
+              samples=s.get("samples") or [])
+    ctx.take_failures(r, "authhist")
 
     selftest(ctx, acc)
 
